@@ -31,6 +31,9 @@ BUILT = {
  "C14": ("buffer-engine", "exploration", "property testing of every buffer writer/reader against a reference encoder with whole-arena before/after snapshots and canary neighbours; round-trip relations",
          "One generated buffer (fresh / recycled / aligned at odd cursor, borrowed / owned, capacity 0..96, any fill level) between canary neighbours; 1..5 generated calls over 12 integer types x 3 byte orders, LEB128, slices, set_len, align_to/put/put_aligned over the type table; out-of-buffer bytes compared byte for byte after every call; checked and unchecked builds.",
          "put::<T> is only called at positions aligned for T (its documented precondition; ZSTs are kept aligned too)", "5/C14"),
+ "C15": ("reader-engine", "exploration", "property testing of arena-level readers against a reference decode of memory(), offsets dense around allocated() and at usize extremes, checked and unchecked builds",
+         "Arena filled with continuation-heavy content and rewound so that non-zero bytes lie above allocated(); every reader at generated offsets; fixed-width results compared with a reference decode iff the value lies below the mark (u128 arithmetic), varint results compared with the decoder applied to exactly the bytes below the mark.",
+         "const_varint (the crate rarena delegates to) is the varint reference for the slice; an independent LEB128 decoder cross-checks unsigned values", "5/C15"),
  "C16": ("engine-a", "exploration", "property testing of constructors against Options::data_offset*, accessor table, and 3-way differential (Vec/anon/file, unified layout) with memory() hashes per step",
          "Constructor cases around the prefix size for reserved 0..=4096 on all backends and both flavours, accessor table and first-allocation offset; then one history in lock-step on Vec, anonymous-mmap and file arenas with byte-identical memory() after every step.",
          "Options::data_offset / data_offset_unify are the reference, as the statement says", "5/C16"),
@@ -40,6 +43,9 @@ BUILT = {
  "C18": ("engine-a", "exploration", "stateful property testing on unsync::Arena with truncate steps, before/after state relation",
          "truncate(n) for n around allocated/capacity and up to 4x capacity on the three backends after histories with free list and detached live data; capacity law, unchanged state and bytes, later fitting allocations must succeed.",
          "truncate only while refs()==1 and no handle object exists", "5/C18"),
+ "C19": ("checksum-engine", "exploration", "property testing: chunked checksum == one-shot checksum by the same builder, with a position-sensitive second builder",
+         "Allocated lengths hit exactly at k*page-2..k*page+2 for k<=3 plus random lengths, reserved 0..=64, three backends; checksum(b) compared with b.checksum_one(allocated_memory()[reserved..]) for Crc32 and a position-weighted sum that detects dropped/repeated/reordered chunks.",
+         "page size is the host's (4096)", "5/C19"),
  "C20": ("engine-a", "exploration", "stateful property testing, per-step discarded() delta predicates against free-list snapshots",
          "Per-step accounting predicates for discarded(): monotone, increase_discarded, None-release, too-small release never reused, discard_freelist sum/empty list.",
          "same as C01", "5/C20"),
@@ -77,6 +83,8 @@ def main():
         },
         "engines": [
             {"name": "buffer-engine", "path": "/verif/harness/src/props/c14.rs", "serves_properties": ["C14"], "kind_free_text": "micro-case property engine for BytesRefMut/BytesMut writers and readers"},
+            {"name": "reader-engine", "path": "/verif/harness/src/props/small.rs", "serves_properties": ["C15"], "kind_free_text": "micro-case property engine for the arena-level get_* readers"},
+            {"name": "checksum-engine", "path": "/verif/harness/src/props/small.rs", "serves_properties": ["C19"], "kind_free_text": "micro-case property engine for Allocator::checksum"},
             {"name": "engine-a", "path": "/verif/harness/src/enga.rs", "serves_properties": [p for p in ALL if p in BUILT and BUILT[p][0] == "engine-a"], "kind_free_text": "single-threaded model-based history interpreter driven by proptest strategies; shadow map + free-list snapshot oracles; worker processes under a supervisor"},
         ],
         "checks": checks,
